@@ -133,8 +133,10 @@ static std::vector<Fault> enumerate(const std::vector<char> &b, int level, uint6
   if (g_identity_only) { fs.push_back({8, 0, 0, 0}); return fs; }
   const long L = (long)b.size();
   vrt::Rng r(seed ^ (index * 7919));
-  // thorough: every offset of every stream up to 6000 bytes; the four big legacy files (37..121 KB) at about 4000 evenly spread offsets each
-  const long step = level >= 2 ? (L <= 6000 ? 1 : (L + 3999) / 4000) : (L <= 400 ? 1 : (L <= 1500 ? 5 : 23));
+  // thorough: every offset of every stream up to 6000 bytes; the four big legacy files (37..121 KB) at about 1000 evenly spread offsets each
+  // (a probe of one of the big files costs 50 ms and more: about 1000 offsets each, with the plain byte / word / varint values only)
+  const bool bigfile = L > 6000;
+  const long step = level >= 2 ? (!bigfile ? 1 : (L + 999) / 1000) : (L <= 400 ? 1 : (L <= 1500 ? 5 : 23));
   const long phase = (long)(r.below((uint64_t)step));
   fs.push_back({8, 0, 0, 0});
   // streams named c* (constrained multi-parallelogram grids): counts that end on a word boundary of the crease-flag vectors, at every offset
@@ -143,6 +145,7 @@ static std::vector<Fault> enumerate(const std::vector<char> &b, int level, uint6
   for (long o = phase; o < L; o += step) {
     const unsigned char v = (unsigned char)b[o];
     for (int val : {0x00, 0xFF, (v + 1) & 0xFF, (v - 1) & 0xFF, v ^ 0x80, v ^ 0x01}) if (val != v) fs.push_back({1, o, val, 0});
+    if (bigfile) { for (long long w : {0ll, 0xFFFFFFFFll}) fs.push_back({2, o, w, 0}); for (int pp : {0, 5, 8}) fs.push_back({3, o, pp, 0}); continue; }
     // field-shaped values: the zero-run token of the rANS table ((run << 2) | 3, run 0..9) and a nibble equal to a small dimension count (packed 4-bit fields)
     if (level >= 1 || L <= 400) {
       for (int run = 0; run < 10; ++run) { const int val = (run << 2) | 3; if (val != v) fs.push_back({1, o, val, 0}); }
@@ -154,7 +157,7 @@ static std::vector<Fault> enumerate(const std::vector<char> &b, int level, uint6
   // the first 40 bytes hold the header, the counts and the first tables: always at step 1
   if (step > 1) for (long o = 0; o < std::min<long>(L, 40); ++o) { for (int val : {0x00, 0xFF, 0x7F, 0x80}) fs.push_back({1, o, val, 0}); for (int p : {0, 5, 6, 7, 8, 9}) fs.push_back({3, o, p, 0}); fs.push_back({2, o, 0xFFFFFFFFll, 0}); }
   // a varint that never ends: 400 000 continuation bytes from the offset on (whatever reads a varint there has to give up after the width of its type)
-  for (long o = 8; o < L; o += (o < 64 ? 1 : (level >= 1 ? 5 : 17))) fs.push_back({9, o, 400000, 0});
+  for (long o = 8; o < L; o += (o < 64 ? 1 : bigfile ? (L + 199) / 200 : (level >= 1 ? 5 : 17))) fs.push_back({9, o, 400000, 0});
   for (int maj = 0; maj <= 3; ++maj) for (int mn = 0; mn <= 5; ++mn) fs.push_back({4, 0, maj, mn});
   for (long o = 7; o <= 10 && o < L; ++o) for (int val = 0; val < 6; ++val) fs.push_back({5, o, val, 0});
   const int nmulti = level >= 2 ? 400 : (level == 1 ? 60 : 12);
